@@ -41,7 +41,7 @@ impl Scenario for MemLimit {
         "per case one DecodeWithMemTracking subject (built-in, derived, generic; all catalogue subjects that implement it), one byte string (honest encoding of a generated value, damaged, truncated, random) and one benign source; step 1: tracked usage U = MemTrackingInput(usize::MAX).used_mem() and the unlimited result R; step 2: EVERY limit L in 0..=U+1 when U <= 600 (quick) / 4096 (thorough), else L in {0,1,U/2,U-1,U,U+1,2U,usize::MAX}, each through T::decode_with_mem_limit on the slice and through the MemTrackingInput layer over the drawn source (alone; inside and outside a depth-limit(max) wrapper; inside and outside a CountedInput); oracle: result(L) in {R, Err}; R Ok and L > U => equal to R; U > 0 and L <= U => Err; U == 0 for subjects without heap containers; U >= bytes of decoded data the value holds on the heap (len*size_of elem, boxed size, string length, half of len*size_of for tree maps/sets, summed over nesting); U identical across sources; one sub-run per (L, entry point); non-trivial = sub-runs with L <= U+1 and U > 0 (an announcement can fail) "
     }
     fn cases(&self, tier: Tier) -> u64 {
-        tiered(tier, 60_000, 6_000_000)
+        tiered(tier, 250_000, 8_000_000)
     }
     fn gen(&self, seed: u64, idx: u64, tier: Tier) -> Plan {
         let mut rng = Rng::for_case(seed, "memlimit", idx);
